@@ -63,9 +63,10 @@ def tune_slow_unit(kind):
         nothing changes; the step size is rescaled by sqrt(trace old / trace new)."""
         c = ip.ctx
         install_mm_models(ip)
-        for diag in (True, False):
-            for keys in (("b", "a"), ("a",)):
-                k = sym_kernel(ip, kind, keys=keys, mm_diag=diag)
+        for diag, keys, start in [(d_, k_, None) for d_ in (True, False) for k_ in (("b", "a"), ("a",))] + [(True, ("b", "a"), "user"), (False, ("a",), "user")]:
+            if True:
+                # the constructor's initial_inverse_mass_matrix only says where the adaptation STARTS: after a slow epoch the matrix is the tuned one all the same
+                k = sym_kernel(ip, kind, keys=keys, mm_diag=diag, initial_inverse_mass_matrix=None if start is None else z3.Const("user_inverse_mass_matrix", U))
                 ks = sym_da_state(ip, kind)
                 old_mm, old_step = ks.f["inverse_mass_matrix"], ks.f["step_size"]
                 ep = sym_epoch_state(ip)
@@ -76,7 +77,7 @@ def tune_slow_unit(kind):
                 ip.models["jax.numpy.trace"] = lambda ip_, x: ip_.uf("trace_tr", ip_.to_U(x))
                 hist = {"a": z3.Const("ha", U), "zz_other_kernel": z3.Const("hz", U), "b": z3.Const("hb", U)}
                 out = ip.call(method(ip, k, "_tune_slow"), [z3.Const("key", U), ks, z3.Const("ms", U), ep, hist], {})
-                tag = f".{'diag' if diag else 'full'}.{''.join(keys)}"
+                tag = f".{'diag' if diag else 'full'}.{''.join(keys)}" + ("" if start is None else ".user_initial_matrix")
                 which = "diag" if diag else "full"
                 c.oblige("tuner_matches_mode" + tag, list(got) == [which])
                 if which in got:
